@@ -11,7 +11,7 @@ From Coq Require Import List NArith Arith Lia Bool.
 From Coq Require Import ZifyBool.
 From RTA.Model Require Import Base Arrival WellFormed.
 From RTA.Spec Require Import Events.
-From RTA.Proofs Require Import FixedPointProofs.
+From RTA.Proofs Require Import FixedPointProofs WcetProofs.
 Import ListNotations.
 
 (* ------------------------------------------------------------------------------------------ *)
@@ -359,16 +359,34 @@ Proof.
   rewrite lastN_cons2 in Hx. rewrite (IH ltac:(discriminate) Hx). reflexivity.
 Qed.
 
-(* the part of number_arrivals that depends on the remainder *)
+(* the part of number_arrivals that depends on the position inside a repetition block *)
 Definition curve_tail (d : list N) (tail : N) : N :=
   if hdN d <? tail then lookup_arrivals d tail else b2n (0 <? tail).
 
-Lemma curve_na_eq : forall d delta, delta <> 0 ->
-  curve_na d delta = (delta / lastN d) * lenN d + curve_tail d (delta mod lastN d).
+(* number_arrivals by the block and the position of delta - 1: delta = q * last + t with 1 <= t <= last *)
+Lemma curve_na_succ : forall d n, 0 < lastN d ->
+  curve_na d (n + 1) = (n / lastN d) * lenN d + curve_tail d (n mod lastN d + 1).
 Proof.
-  intros d delta H. unfold curve_na, curve_tail.
-  destruct (N.eqb_spec delta 0); [congruence|]. cbv zeta.
-  destruct (hdN d <? delta mod lastN d); reflexivity.
+  intros d n HL. unfold curve_na, curve_tail.
+  destruct (N.eqb_spec (n + 1) 0) as [E|_]; [lia|]. cbv zeta.
+  set (L := lastN d) in *.
+  destruct (divmod_succ n L HL) as [[H1 [H2 H3]]|[H1 [H2 H3]]]; rewrite H2, H3.
+  - destruct (N.eqb_spec (n mod L + 1) 0) as [E|_]; [dlia|].
+    destruct (N.ltb_spec (hdN d) (n mod L + 1)); [reflexivity|].
+    unfold b2n. destruct (N.ltb_spec 0 (n mod L + 1)); [reflexivity | dlia].
+  - rewrite N.eqb_refl, H1.
+    replace ((n / L + 1) * lenN d - lenN d) with (n / L * lenN d) by dlia.
+    destruct (N.ltb_spec (hdN d) L) as [Hhd|Hhd]; [reflexivity|].
+    unfold b2n. destruct (N.ltb_spec 0 L) as [_|E]; [|lia].
+    destruct d as [|y d]; [unfold L, lastN in HL; cbn [last] in HL; lia|].
+    unfold hdN in Hhd. cbn [hd] in Hhd. cbn [lookup_arrivals].
+    destruct (N.leb_spec L y); [reflexivity | lia].
+Qed.
+
+Lemma curve_na_eq : forall d delta, delta <> 0 -> 0 < lastN d ->
+  curve_na d delta = ((delta - 1) / lastN d) * lenN d + curve_tail d ((delta - 1) mod lastN d + 1).
+Proof.
+  intros d delta H HL. rewrite <- (curve_na_succ d (delta - 1) HL). f_equal. lia.
 Qed.
 
 Lemma curve_tail_mono : forall d x y, x <= y -> curve_tail d x <= curve_tail d y.
@@ -390,13 +408,21 @@ Qed.
 Lemma curve_na_0 : forall d, curve_na d 0 = 0.
 Proof. reflexivity. Qed.
 
+(* up to and including the last entry, number_arrivals is the plain lookup *)
+Lemma curve_na_le_last : forall d delta, delta <> 0 -> delta <= lastN d ->
+  curve_na d delta = curve_tail d delta.
+Proof.
+  intros d delta H0 Hle. rewrite curve_na_eq by lia.
+  rewrite N.div_small, N.mod_small by lia. replace (delta - 1 + 1) with delta by lia. lia.
+Qed.
+
 Lemma curve_na_mono : forall d a b, wf_dmin d -> a <= b -> curve_na d a <= curve_na d b.
 Proof.
   intros d a b [Hne [Hnd Hlast]] Hab.
   destruct (N.eq_dec a 0) as [->|Ha]; [rewrite curve_na_0; lia|].
   rewrite !curve_na_eq by lia.
-  apply (cyclic_mono (curve_tail d) (lenN d) (lastN d) Hlast); [| |exact Hab].
-  - apply curve_tail_mono.
+  apply (cyclic_mono (fun x => curve_tail d (x + 1)) (lenN d) (lastN d) Hlast); [| |lia].
+  - intros x y Hxy. apply curve_tail_mono. lia.
   - intros x Hx. apply curve_tail_le_len; [exact Hne | lia].
 Qed.
 
@@ -419,18 +445,21 @@ Proof.
   intros d q r delta [Hne [Hnd Hlast]] Hr Hd.
   rewrite curve_na_eq by lia.
   set (L := lastN d) in *. set (D := match r with O => 0 | S r' => nthN d r' end) in *.
-  pose proof (N.div_mod delta L ltac:(lia)) as Hdm. pose proof (N.mod_lt delta L ltac:(lia)) as Hlt.
-  generalize dependent (delta / L). generalize dependent (delta mod L). intros tail Hlt Q Hdm.
+  assert (HD : D <= L).
+  { subst D L. destruct r as [|r']; [lia|]. rewrite last_nth.
+    apply nondecreasing_nth; [exact Hnd | lia | lia]. }
+  pose proof (N.div_mod (delta - 1) L ltac:(lia)) as Hdm. pose proof (N.mod_lt (delta - 1) L ltac:(lia)) as Hlt.
+  generalize dependent ((delta - 1) / L). generalize dependent ((delta - 1) mod L). intros tail Hlt Q Hdm.
   assert (Hlen : N.of_nat r + 1 <= lenN d) by (unfold lenN; lia).
   destruct (N.lt_trichotomy Q q) as [HQ|[HQ|HQ]].
   - exfalso. assert (L * (Q + 1) <= L * q) by (apply N.mul_le_mono_l; lia). lia.
-  - subst q. assert (Htail : D + 1 <= tail) by lia.
-    enough (N.of_nat r + 1 <= curve_tail d tail) by lia.
-    unfold curve_tail. destruct (N.ltb_spec (hdN d) tail) as [Hhd|Hhd].
+  - subst q. assert (Htail : D + 1 <= tail + 1) by lia.
+    enough (N.of_nat r + 1 <= curve_tail d (tail + 1)) by lia.
+    unfold curve_tail. destruct (N.ltb_spec (hdN d) (tail + 1)) as [Hhd|Hhd].
     + apply lookup_lb; [lia|]. intros i Hi. destruct r as [|r']; [lia|].
       pose proof (nondecreasing_nth d i r' Hnd ltac:(lia) ltac:(lia)). subst D. lia.
     + destruct r as [|r'].
-      * unfold b2n. destruct (N.ltb_spec 0 tail); lia.
+      * unfold b2n. destruct (N.ltb_spec 0 (tail + 1)); lia.
       * exfalso. rewrite hdN_nth in Hhd.
         pose proof (nondecreasing_nth d O r' Hnd ltac:(lia) ltac:(lia)). subst D. lia.
   - assert ((q + 1) * lenN d <= Q * lenN d) by (apply N.mul_le_mono_r; lia). lia.
@@ -718,10 +747,7 @@ Proof. intros d H. unfold can_extrapolate, lenN in H. lia. Qed.
 
 Lemma curve_na_small : forall d delta, delta <> 0 -> delta < lastN d ->
   curve_na d delta = curve_tail d delta.
-Proof.
-  intros d delta H0 Hlt. rewrite curve_na_eq by exact H0.
-  rewrite N.div_small, N.mod_small by exact Hlt. lia.
-Qed.
+Proof. intros d delta H0 Hlt. apply curve_na_le_last; [exact H0 | lia]. Qed.
 
 Lemma curve_tail_app : forall d l x, d <> [] -> x <= lastN d -> curve_tail (d ++ l) x = curve_tail d x.
 Proof.
